@@ -217,6 +217,31 @@ def judge_excess(meta, out, tol=F(0)):
     return None
 
 
+def judge_preferred(meta, out):
+    """Min-content guarantee of table_and_columns_preferred_widths stated directly: every column's
+    min-content width covers its non-spanning cells, the columns of a spanning cell (plus the spacings
+    between them) cover the cell, max >= the cells' max, the table min-content width covers the columns."""
+    spec = meta['spec']
+    if out.startswith('err:'):
+        return f'table_and_columns_preferred_widths raised {out}'
+    items = sx.loads_line(out)
+    tmin, tmax = F(items[1]), F(items[2])
+    mins, maxs = [F(x) for x in items[3]], [F(x) for x in items[4]]
+    spacing = F(0) if spec['collapse'] else spec['spacing']
+    n = len(mins)
+    for row in spec['rows']:
+        for gx, colspan, rowspan, (mn, mx, width, min_pct, max_pct) in row:
+            if colspan < 1 or gx + colspan > n or mn < 0:
+                continue
+            have = sum(mins[gx:gx + colspan]) + spacing * (colspan - 1)
+            if have < mn - F(1, 10**9) * max(1, abs(mn)):      # the code mixes in binary floats
+                return (f'preferred widths: cell at column {gx} spanning {colspan} has min-content width {mn}, '
+                        f'its columns only {have}')
+    if all(m >= 0 for m in mins) and tmin < sum(mins) - F(1, 10**9) * max(1, abs(tmin)):
+        return f'preferred widths: table min-content {tmin} below the sum of its columns {sum(mins)}'
+    return None
+
+
 def auto_wellformed(inp):
     cols = inp['cols']
     return (all(0 <= c[0] <= c[1] and 0 <= c[2] for c in cols) and
@@ -350,8 +375,10 @@ def _doc_violation(html, info):
 
 class C10(PropCheck):
     id = 'C10'
+    heights_acc = []
     extractors = (border_styles.generate,)
-    modules = ('WpModel.Props.C10', 'WpModel.Witness.C10')
+    modules = ('WpModel.Props.C10', 'WpModel.Props.C10Pages', 'WpModel.Props.C10Pref', 'WpModel.Props.C10Heights',
+               'WpModel.Witness.C10')
     trusted_base = (
         'modelled, not verified: fixed_table_layout, auto_table_layout (given the preferred-width tuple), '
         'distribute_excess_width, the column/cell placement of table_layout',
@@ -363,6 +390,8 @@ class C10(PropCheck):
 
     def correspondence(self, run):
         self.widths_direct(run)
+        self.witnesses(run)
+        self.preferred_direct(run)
         self.borders_direct(run)
         self.documents(run)
 
@@ -372,12 +401,15 @@ class C10(PropCheck):
         rng = run.rng
         rec = tables.Recorder()
         geom, rows, pages, clauses = [], [], [], []
+        C10.heights_acc = []
         n_docs = run.n(300, 3200)
         render_errors = []
+        predict, predict_notes = [], {}
         for i in range(n_docs):
-            flavour = 'paged' if i % 2 else 'wide'
-            html, info = tables.g_doc(rng, flavour)
+            flavour = ('wide', 'paged', 'atomic')[i % 3]
+            html, info = tables.g_atomic_doc(rng) if flavour == 'atomic' else tables.g_doc(rng, flavour)
             rec.current = (html, info)
+            rec.layouts.clear()
             doc_meta = {'html': html, 'info': info}
             try:
                 with rec.installed():
@@ -389,7 +421,15 @@ class C10(PropCheck):
                 self.extract(document, info, doc_meta, geom, rows, pages, clauses, layout_widths(rec, html))
             except Exception as exc:  # noqa: BLE001 - e.g. a non-finite used value
                 render_errors.append((html, f'extraction: {type(exc).__name__}: {exc}', info))
-        self.feed_documents(run, rec, geom, rows, pages, clauses, render_errors, n_docs)
+            try:
+                cases, note = tables.layout_call_cases(rec.layouts)
+            except tables.NotFinite:
+                cases, note = [], 'not-finite'
+            predict_notes[note or 'used'] = predict_notes.get(note or 'used', 0) + 1
+            predict.extend((line, out, doc_meta, tags) for line, out, tags in cases)
+        rec.layouts.clear()
+        run.extra['pagination_model_documents'] = predict_notes
+        self.feed_documents(run, rec, geom, rows, pages, clauses, render_errors, n_docs, predict)
 
     @staticmethod
     def extract(document, info, doc_meta, geom, rows, pages, clauses, widths=None):
@@ -403,6 +443,17 @@ class C10(PropCheck):
         for k, (_, _, t) in enumerate(frags):
             args, out = tables.geom_case(t)
             geom.append((sx.line('geom', *args), out, doc_meta, kind))
+            if len(frags) == 1:
+                for g in t.children:
+                    case = tables.row_heights_case(t, g)
+                    if case:
+                        valigns = {c.vertical_align for r in g.children for c in r.children}
+                        C10.heights_acc.append((sx.line('rowheights', *case[0]), case[1], doc_meta,
+                                                kind + sorted(valigns) +
+                                                (['rowspan'] if any(c.rowspan > 1 for r in g.children
+                                                                    for c in r.children) else []) +
+                                                (['row-height'] if any(r.style['height'] != 'auto'
+                                                                       for r in g.children) else [])))
             if k == 0:
                 clauses.extend((line, impl, doc_meta, kind + [tag]) for line, impl, tag in tables.clause_cases(t, [f[2] for f in frags], widths))
             frag_rows = all_rows[k]
@@ -422,7 +473,7 @@ class C10(PropCheck):
                                                   f'caption-{info["caption"]}']))
 
     @staticmethod
-    def feed_documents(run, rec, geom, rows, pages, clauses, render_errors, n_docs):
+    def feed_documents(run, rec, geom, rows, pages, clauses, render_errors, n_docs, predict=()):
         rounded = 0
 
         def feed(sec, cases, nontrivial=lambda line: True):
@@ -466,6 +517,12 @@ class C10(PropCheck):
               'ok ' + tables.show_rats(r['out']), docmeta(r),
               ['sliced' if (r['start'], r['stop']) != (0, None) else 'full']) for r in rec.excess])
         feed(run.section(
+            'doc-preferred', 'first computation of table_and_columns_preferred_widths for every table of the '
+            'rendered documents: the intrinsic widths of the single cells / columns / groups are obtained from '
+            'the real helpers, the function result (outer=False tuple) is compared with the model'),
+            [(sx.line('preferred', *r['args']), r['out'], docmeta(r), []) for r in rec.preferred
+             if not tables.preferred_unstable(r['out'])])
+        feed(run.section(
             'doc-wrapper', 'calls of table_wrapper_width recorded while rendering: which algorithm ran (fixed iff '
             'table-layout:fixed and width not auto), the used table width it was given (percentage and '
             'box-sizing resolved), wrapper.width = border box of the table'),
@@ -491,12 +548,81 @@ class C10(PropCheck):
             'doc-rows', 'every table fragment: y/height of row groups, y of rows, table height, y and '
             'border-box height of every cell (rowspan included), given the row heights'), rows)
         feed(run.section(
+            'doc-rowheights', 'row groups of tables laid out in one fragment: the cells\' boxes before the '
+            'alignment passes are reconstructed (computed paddings, content height, kept baseline) and the '
+            'row height algorithm of group_layout (baseline alignment, ending_cells_by_row for rowspans, auto '
+            'or specified row height, vertical-align stretching, stacking) is compared: y / height / baseline '
+            'of each row, final top/bottom padding of each cell'), list(C10.heights_acc))
+        feed(run.section(
             'doc-pagination', 'checker (Lean, with soundness theorems) on the fragments of each split table: '
             'body rows once and in order (a row cut by the break is merged), header/footer present when they '
             'fit with the first row, never alone; the implementation side is the constant `ok`; '
             'non-trivial = more than one fragment'), pages,
             nontrivial=lambda line: line.count('(true') + line.count('(false') > 1)
+        feed(run.section(
+            'doc-pages-predict', 'every call of table_layout recorded while rendering tables whose rows are '
+            'never split (skip stack, bottom space, page-is-empty flag, page bottom, row heights and break '
+            'properties in; header/footer kept, row groups and rows placed with y/height, resume_at, '
+            'next_page break, end y out) against the predictive Lean model of group_layout / '
+            'body_groups_layout / all_groups_layout; includes the calls whose result the caller discards'),
+            list(predict))
         run.extra['float_rounding'] = rounded
+
+    # -- the inputs of Witness/C10.lean replayed on the real functions
+    def witnesses(self, run):
+        sec = run.section(
+            'witness-replay', 'the concrete inputs of the Witness theorems (hypotheses of the _partial theorems '
+            'are necessary) run on the real functions and compared with the model: fixed_negative_column, '
+            'auto_band_below_min (CleanBand is necessary for auto_ge_min), auto_spacing_short')
+        args = (F(60), False, F(0), [('px', F(100)), ('auto',)], [(2, ('px', F(50)), F(0), F(0), F(0), F(0), 'content')])
+        out = tables.call_fixed(*args)
+        sec.add(tables.fixed_line(sx, *args), out, meta={'args': args},
+                tags=['negative-column' if '-45' in out else 'repaired'])
+        eps = F(1, 10**9)
+        band = {'table_w': F(400), 'tmin': F(200), 'tmax': F(1000), 'spacing': F(0), 'ml': F(0), 'mr': F(0),
+                'pl': F(0), 'pr': F(0), 'bl': F(0), 'br': F(0), 'cb': F(1000),
+                'cols': [(F(100), F(100) + 120 * eps, F(0), True, True), (F(100), F(300), F(0), False, True),
+                         (F(0), F(500), 50 * (1 + F(4, 10) * eps), False, True)]}
+        out = tables.call_auto(band)
+        below = out.startswith('ok') and parse_out(out)[1][0] < 100
+        sec.add(tables.auto_line(sx, band), out, meta={'args': band}, tags=['below-min' if below else 'not-below'])
+        short = {'table_w': 'auto', 'tmin': F(50), 'tmax': F(50), 'spacing': F(20), 'ml': F(0), 'mr': F(0),
+                 'pl': F(0), 'pr': F(0), 'bl': F(0), 'br': F(0), 'cb': F(400),
+                 'cols': [(F(15), F(15), F(0), False, True), (F(15), F(15), F(0), False, True)]}
+        sec.add(tables.auto_line(sx, short), tables.call_auto(short), meta={'args': short}, tags=['spacing-short'])
+
+    # -- table_and_columns_preferred_widths on mock tables (intrinsic widths of single boxes stubbed)
+    def preferred_direct(self, run):
+        rng = run.rng
+        sec = run.section(
+            'preferred-direct', 'real table_and_columns_preferred_widths on mock tables (1..5 columns, 1..4 rows, '
+            'colspan/rowspan/holes, col and colgroup boxes, widths auto/px/%, min/max-width %), the intrinsic '
+            'widths of the single boxes given as attributes (the three text-measuring helpers are stubbed); '
+            'compares table min/max-content width, per-column min/max/percentage/constrainedness, total '
+            'spacing; the large-percentage denominator is an int/int float in the code: tmax may be snapped')
+        cases = []
+        unstable = 0
+        for i in range(run.n(1500, 25000)):
+            spec = tables.g_pref_spec(rng, i % 5 == 4)
+            args, out = tables.call_preferred(spec)
+            if not any(args[2]):
+                continue                      # empty grid: another path of the code, not modelled
+            if tables.preferred_unstable(out):
+                unstable += 1
+                continue
+            spans = {c[1] for r in args[2] for c in r}
+            cases.append((sx.line('preferred', *args), out, {'spec': spec},
+                          ['adv' if i % 5 == 4 else 'valid', f'maxspan{max(spans)}',
+                           'collapse' if args[0] else 'separate',
+                           'pct' if ' (pct ' in sx.line('x', args[2]) else 'no-pct']))
+        outs = lean.run_driver(DRIVER, [c[0] for c in cases])
+        rounded = 0
+        for (line, impl, meta, tags), model in zip(cases, outs):
+            snapped, k = tables.snap(impl, model)
+            rounded += k
+            sec.add(line, snapped, meta=dict(meta, impl_exact=impl), nontrivial='maxspan1' not in tags, tags=tags)
+        run.extra['float_rounding_preferred_direct'] = rounded
+        run.extra['float_unstable_preferred_direct'] = unstable
 
     # -- collapse_table_borders on hand-built real box trees
     def borders_direct(self, run):
@@ -573,6 +699,10 @@ class C10(PropCheck):
             return judge_excess(meta, d['impl'])
         if section == 'auto-direct':
             return judge_auto(meta, d['impl'])
+        if section == 'witness-replay':
+            return None
+        if section == 'preferred-direct':
+            return judge_preferred(meta, d['impl'])
         if section == 'borders-direct':
             if d['impl'].startswith('err:'):
                 return None
@@ -603,6 +733,14 @@ class C10(PropCheck):
                     found.append({'what': what, 'input': {'function': name, 'args': args},
                                   'signature': f'search:{name}'})
                     break
+        for _ in range(2000):
+            spec = tables.g_pref_spec(rng, False)
+            run.search_stats['evaluations'] += 1
+            what = judge_preferred({'spec': spec}, tables.call_preferred(spec)[1])
+            if what:
+                found.append({'what': what, 'input': {'function': 'table_and_columns_preferred_widths',
+                                                      'spec': spec}, 'signature': 'search:preferred'})
+                break
         for _ in range(2000):
             spec, gw, gh = tables.g_border_spec(rng, False)
             table = tables.build_border_table(spec)
@@ -664,6 +802,15 @@ class C10(PropCheck):
         if fn == 'auto_table_layout':
             args = revive_value(inp['args'])
             return judge_auto({'args': args}, tables.call_auto(args))
+        if fn == 'table_and_columns_preferred_widths':
+            spec = revive_value(inp['spec'])
+            spec['rows'] = [[(c[0], c[1], c[2], tuple(tuple(x) if isinstance(x, list) else x for x in c[3]))
+                             for c in row] for row in spec['rows']]
+            spec['colgroups'] = [(tuple(tuple(x) if isinstance(x, list) else x for x in g),
+                                  [tuple(tuple(x) if isinstance(x, list) else x for x in c) for c in cols])
+                                 for g, cols in spec['colgroups']]
+            spec['width'] = tuple(spec['width'])
+            return judge_preferred({'spec': spec}, tables.call_preferred(spec)[1])
         if fn == 'collapse_table_borders':
             spec = revive_value(inp['spec'])
             table = tables.build_border_table(spec)
@@ -768,7 +915,14 @@ MANIFEST = {
             '(columns_partition, cell_extent); collapsed borders — the edge winner is the first maximum under '
             '(hidden, width, style rank) for any offer sequence, offers are made in CSS 2.1 17.6.2 order, used widths '
             'are halves that add up on shared edges (border_winner, offers_in_css_order, border_halves); pagination — '
-            'soundness of the checker applied to every split table (rows_once, header_footer_repeat).',
+            'soundness of the checker applied to every split table (rows_once, header_footer_repeat). '
+            'Round 2: a predictive model of group_layout / body_groups_layout / all_groups_layout for unsplit rows '
+            '(every recorded call of table_layout compared) with fragment_prefix, rows_once (all rows once, in '
+            'order, over any page sequence), progress, pagination_terminates, header_footer_when_fit '
+            '(Props/C10Pages); table_and_columns_preferred_widths mirrored given the intrinsic widths of single '
+            'boxes, with the min-content guarantee for non-spanning and spanning cells end to end through '
+            'auto_table_layout (Props/C10Pref); the row height algorithm (baseline alignment, rowspans, '
+            'vertical-align stretching) with row_height (Props/C10Heights).',
     'note': 'Trusted: Lean kernel; the AST/graph translator of the border style list; the harness (mock boxes, call '
             'recorders around the real functions during renders, float results snapped to the rational model within '
             '1e-9 relative and counted). Not modelled: table_and_columns_preferred_widths (its result is an input of the '
